@@ -7,8 +7,11 @@
    encodability).  `result ps n` = yields ps, num_passwords n, no encoding error.
 
    The LAST theorems depend on a side condition on the current /repo sources
-   (every code point the line iteration splits on is rejected by check_valid);
-   they fail to check while R10 (U+2029) is in the tree. *)
+   (every code point the reader's line iteration splits on is rejected by
+   check_valid); they fail to check while R10 (U+2029) is in the tree.
+   LBR = the reader's line-break class, extracted from how the source opens the
+   training file (codecs.open: every str.splitlines break; builtin open with
+   newline='\n': LF only). *)
 From Coq Require Import String Ascii.
 From Coq Require Import List NArith ZArith Bool Permutation.
 From Pcfg Require Import TextFile Counters Reader IoCorr TextFileProofs CountersProofs CollapseProofs ReaderProofs IoFacts.
@@ -50,6 +53,9 @@ Theorem C19_skips : forall dec encb,
 Proof. exact skips_inst. Qed.
 
 (* TAB and the C0 controls are among the rejected code points of the source *)
+Theorem C19_reader_classes_ok : reader_classes_ok = true.
+Proof. exact reader_classes_ok_true. Qed.
+
 Theorem C19_tab_and_controls_rejected :
   forallb (fun c => memN c check_valid_rejected) (map N.of_nat (seq 0 32)) = true.
 Proof. vm_compute. reflexivity. Qed.
@@ -60,7 +66,7 @@ Theorem C19_three_passes : forall dec encb prefix text,
   let C := cfgR dec encb prefix in
   let '(p1, p2, p3) := three_passes C text in
   out p1 = out p2 /\ out p2 = out p3 /\
-  ((forall l, In l (lines_keep LB text) -> (0 <= line_count (read_line C l))%Z) ->
+  ((forall l, In l (lines_keep LBR text) -> (0 <= line_count (read_line C l))%Z) ->
    npw p1 = Z.of_nat (length (out p2)) /\ npw p1 = Z.of_nat (length (out p3))).
 Proof. exact three_passes_inst. Qed.
 
@@ -88,18 +94,20 @@ Proof.
   exact (conj collapse_same_counter (conj collapse_same_length (conj expand_collapse_perm permuted_same_counts))).
 Qed.
 
-(* the faithful model refutes "a line holding a control character is skipped":
-   after a code point the codec splits on, the tail is read as a password *)
+(* a reader iterating the file through codecs (as the published trainer does)
+   refutes "a line holding a control character is skipped": after a code point
+   the codec splits on, the tail is read as a password of its own - with the
+   published check_valid (VT) and still after U+2029 is added to it *)
 Theorem C19_refuted_tail_after_linebreak :
-  out (read_text (cfgR (fun _ => None) (fun _ => true) false) [97; 98; 11; 99; 100; 10]%N) = [[99; 100]%N].
+  memN 11%N rejected_2021 = true /\
+  out (read_text (codecs_reader rejected_2021) [97; 98; 11; 99; 100; 10]%N) = [[99; 100]%N] /\
+  out (read_text (codecs_reader (8233%N :: rejected_2021)) [97; 98; 8233; 99; 100; 10]%N) = [[99; 100]%N].
 Proof. exact refuted_tail_after_linebreak. Qed.
 
 (* with the published check_valid a plain line holding U+2029 reads as two passwords *)
 Theorem C19_refuted_plain_2029 :
-  let C := {| r_lb := LB; r_ws := WS; r_iws := IWS; r_dz := DZ; r_rej := rejected_2021; r_rej_empty := true;
-              r_dec := fun _ => None; r_encb := fun _ => true; r_prefix := false |} in
   check_valid rejected_2021 true [97; 98; 8233; 99; 100]%N = true /\
-  out (read_text C (plain_line [97; 98; 8233; 99; 100]%N)) = [[97; 98; 8233]%N; [99; 100]%N].
+  out (read_text (codecs_reader rejected_2021) (plain_line [97; 98; 8233; 99; 100]%N)) = [[97; 98; 8233]%N; [99; 100]%N].
 Proof. exact refuted_plain_2029. Qed.
 
 (* hypotheses satisfiable: a count-prefixed hex line read by the model *)
@@ -116,7 +124,9 @@ Print Assumptions C19_same_grammar.
 
 (* ---------------------------------------------------------------- depends on the source's check_valid *)
 
-Theorem C19_linebreaks_rejected : linebreaks_rejected = true.
+(* check_valid rejects TAB, CR, LF and every code point on which the reader's
+   line iteration splits (finite sweep over the regenerated lists) *)
+Theorem C19_linebreaks_rejected : reader_linebreaks_rejected = true.
 Proof. vm_compute. reflexivity. Qed.
 
 (* a plain line reads to the password *)
